@@ -152,6 +152,10 @@ type ShapeKeySpelling struct {
 	C *string `cbor:"0100,keyasint,omitempty" json:"kc,omitempty"`
 	D int64   `cbor:"007,keyasint" json:"kd"`
 	E *int64  `cbor:"+9,keyasint,omitempty" json:"ke,omitempty"`
+	// ... and labels that need more than 32 bits
+	F *int64  `cbor:"4294967297,keyasint,omitempty" json:"kf,omitempty"`
+	G *int64  `cbor:"-4294967298,keyasint,omitempty" json:"kg,omitempty"`
+	H *string `cbor:"9223372036854775807,keyasint,omitempty" json:"kh,omitempty"`
 }
 
 // embedded fields of defined NON-struct types, tagged: ordinary fields for
@@ -325,7 +329,8 @@ func (s *ShapeFold) fields() []fd {
 	return []fd{fPtrStr(60, "hwver", true, s.HwVer), fPtrStr(61, "HWVER", true, s.HwVerV2), fInt(62, "serial", false, s.Serial), fPtrInt(63, "k", true, s.K), fPtrInt(64, "\u212a", true, s.Kelvin)}
 }
 func (s *ShapeKeySpelling) fields() []fd {
-	return []fd{fPtrInt(10, "ka", true, s.A), fStr(-12, "kb", false, s.B), fPtrStr(100, "kc", true, s.C), fInt(7, "kd", false, s.D), fPtrInt(9, "ke", true, s.E)}
+	return []fd{fPtrInt(10, "ka", true, s.A), fStr(-12, "kb", false, s.B), fPtrStr(100, "kc", true, s.C), fInt(7, "kd", false, s.D), fPtrInt(9, "ke", true, s.E),
+		fPtrInt(4294967297, "kf", true, s.F), fPtrInt(-4294967298, "kg", true, s.G), fPtrStr(9223372036854775807, "kh", true, s.H)}
 }
 func (s *ShapeEmbScalar) fields() []fd {
 	r := []fd{fStr(1, "label", false, string(s.Label)), fPtrInt(2, "a", true, s.A)}
@@ -794,7 +799,7 @@ func TestC15_Shapes(t *testing.T) {
 			}
 			s, fresh, name = e, func() any { return &ShapeOpen{} }, "open-typed-claims"
 		case 3:
-			s, fresh, name = &ShapeKeySpelling{A: drawOptInt(t, "a"), B: drawStr(t, "b"), C: drawOptStr(t, "c"), D: drawInt(t, "d"), E: drawOptInt(t, "e")}, func() any { return &ShapeKeySpelling{} }, "key-spelling"
+			s, fresh, name = &ShapeKeySpelling{A: drawOptInt(t, "a"), B: drawStr(t, "b"), C: drawOptStr(t, "c"), D: drawInt(t, "d"), E: drawOptInt(t, "e"), F: drawOptInt(t, "f"), G: drawOptInt(t, "g"), H: drawOptStr(t, "h")}, func() any { return &ShapeKeySpelling{} }, "key-spelling"
 		case 4:
 			e := &ShapeEmbScalar{Label: Label(drawStr(t, "label")), A: drawOptInt(t, "a"), Count: Count(drawInt(t, "count"))}
 			if b := drawOptBytes(t, "blob"); b != nil && len(*b) > 0 {
